@@ -362,6 +362,13 @@ pub fn long_history_cases() -> Vec<(Violation, Value)> {
         .map(|i| {
             let mut t = crate::common::tree_t1();
             t.insert("own".into(), crate::tree::Node::file(format!("content only version {i} has, {}", "x".repeat(i as usize)).as_bytes(), crate::tree::T0 + 300 + i as i64));
+            // several dozen index hunks per version (one entry per hunk), each file a block of its
+            // own, half of them different in every version
+            for k in 0..40u32 {
+                let body = if k % 2 == 0 { format!("file {k} as in every version") } else { format!("file {k} of version {i} only") };
+                let mt = crate::tree::T0 + 320 + k as i64 + if k % 2 == 0 { 0 } else { 100 * (i as i64 + 1) };
+                t.insert(format!("m{k:02}"), crate::tree::Node::file(body.as_bytes(), mt));
+            }
             t
         })
         .collect();
@@ -370,7 +377,7 @@ pub fn long_history_cases() -> Vec<(Violation, Value)> {
     for t in &trees {
         let src = scratch.fresh("s");
         crate::tree::materialize(t, &src);
-        let o = run::do_backup(&arch, &src, &crate::run::BOpts::new(1000, 1 << 20, 8), run::NOHOOK, Flavor::Current);
+        let o = run::do_backup(&arch, &src, &crate::run::BOpts::new(1, 1 << 20, 8), run::NOHOOK, Flavor::Current);
         if !o.clean_success() {
             out.push((Violation::new("C05:backup-failed", format!("building the twelve-version history: {}", o.describe())), json!({"kind": "c05-long"})));
             return out;
